@@ -24,6 +24,7 @@ import (
 type c01gen struct {
 	r    *gen.Rng
 	rich bool
+	xns  bool // rich only: cross-namespace-secrets-crt=allow and spec.tls secrets named other-namespace/name
 	ing  map[string]world.IngressSpec
 	svc  map[string]int // key -> variant of the port list
 	sec  map[string]int // key -> version
@@ -201,6 +202,10 @@ func (g *c01gen) randomIngress(ns, name string, keep *world.IngressSpec) world.I
 	}
 	if r.Chance(1, 3) {
 		t := world.TLSSpec{Secret: gen.Pick(r, append(append([]string(nil), g.secs...), "", "missing"))}
+		if g.xns && r.Chance(2, 3) {
+			// a certificate shared from another namespace (tracked under the secret's own namespace)
+			t.Secret = gen.Pick(r, g.ns) + "/" + gen.Pick(r, g.secs)
+		}
 		nh := r.Range(1, 2)
 		for i := 0; i < nh; i++ {
 			if h := gen.Pick(r, g.host); h != "" {
@@ -372,14 +377,27 @@ func (g *c01gen) randomOp() []string {
 	}
 }
 
+// cm builds a ConfigMap op (the op replaces the whole data); with xns the permission key rides along, except
+// now and then, when the permission is withdrawn
+func (g *c01gen) cm(data string) string {
+	if g.xns && !g.r.Chance(1, 6) {
+		if data == "-" {
+			data = "cross-namespace-secrets-crt=allow"
+		} else {
+			data += ";cross-namespace-secrets-crt=allow"
+		}
+	}
+	return "cm~" + data
+}
+
 // richOp: ConfigMap (drain-support), pods coupled with endpoints like the endpoints controller does
 func (g *c01gen) richOp(ns string) []string {
 	r := g.r
 	switch r.Intn(4) {
 	case 0:
-		return []string{"cm~drain-support=" + gen.Pick(r, []string{"true", "true", "false"})}
+		return []string{g.cm("drain-support=" + gen.Pick(r, []string{"true", "true", "false"}))}
 	case 1:
-		return []string{"cm~" + gen.Pick(r, []string{"-", "max-connections=500", "drain-support=true;max-connections=500"})}
+		return []string{g.cm(gen.Pick(r, []string{"-", "max-connections=500", "drain-support=true;max-connections=500"}))}
 	default:
 		// a pod of service `s` appears together with its endpoint, or starts terminating and leaves the endpoints
 		s := gen.Pick(r, g.svcs)
@@ -404,6 +422,10 @@ func (g *c01gen) richOp(ns string) []string {
 func (g *c01gen) history() []string {
 	r := g.r
 	var ops []string
+	if r.Chance(1, 4) {
+		// --default-backend-service pointing to one of the generated services
+		ops = append(ops, "opt~db="+gen.Pick(r, g.ns)+"/"+gen.Pick(r, g.svcs))
+	}
 	for _, ns := range g.ns {
 		for _, s := range g.svcs {
 			if r.Chance(5, 6) {
@@ -423,8 +445,11 @@ func (g *c01gen) history() []string {
 		ops = append(ops, "cls+hap:"+world.OurController)
 	}
 	ops = append(ops, "cls+foreign:example.com/other")
-	if g.rich && r.Chance(1, 2) {
-		ops = append(ops, "cm~drain-support=true")
+	if g.rich && r.Chance(1, 3) {
+		g.xns = true
+	}
+	if g.rich && (g.xns || r.Chance(1, 2)) {
+		ops = append(ops, g.cm("drain-support=true"))
 	}
 	n0 := r.Range(0, 4)
 	for i := 0; i < n0; i++ {
